@@ -639,6 +639,11 @@ where
                                 cursor = re_chars.next().map(|(step2_pos, step2)| {
                                     (step1_pos, &re_str[step2_pos..], step2_pos, step2)
                                 });
+                                if cursor.is_none() {
+                                    // A lone backslash at the very end: there is nothing left to
+                                    // unescape, but the trailing string still has to be copied over.
+                                    unescaped.push_str(&re_str[last_pos..]);
+                                }
                                 continue 'outer;
                             }
                         } else {
